@@ -72,7 +72,9 @@ def comp_fn(c, coupling_domain=(-1.0, 3.0)):
 
 def cost_of(kind):
     return {'none': None, 'alpha': lambda al, k: 1.0 + 3.0 * sum(al), 'small': lambda al, k: 0.2 + 0.1 * sum(al),
-            'big': lambda al, k: 40.0 + 25.0 * sum(al)}[kind]
+            'big': lambda al, k: 40.0 + 25.0 * sum(al),
+            # (absurdly) expensive evaluations: every error indicator (relative change / cost) is far below 1e-8
+            'huge': lambda al, k: 2.0e9 + 1.0e9 * sum(al)}[kind]
 
 
 def build_system(spec, listing=None, name='sys', root_dir=None, vectorized=True, recorders=None, model_wrap=None):
